@@ -28,7 +28,9 @@ CfgVals ==
      patchEnabled |-> BOOLEAN,                      \* the actions the delta uses are in the enabled list
      sigAlg       |-> BOOLEAN,                      \* the JWS algorithm is in the allowed list
      keyAlg       |-> BOOLEAN,                      \* the key's curve is in the allowed list
-     nonce        |-> {"none", "ok", "wrongsize"},  \* signing key nonce vs the configured nonce size
+     \* signing key nonce vs the configured nonce size (wrongsize: configured 17; zero: configured 0 - a nonce of 16 bytes is not
+     \* one of 0 bytes)
+     nonce        |-> {"none", "ok", "wrongsize", "zero"},
      ns           |-> {"did:sidetree", "did:ion:test"}]
 
 CfgDev1(c) == UNION { {[c EXCEPT ![f] = v] : v \in CfgVals[f] \ {c[f]}} : f \in DOMAIN CfgVals }
@@ -66,7 +68,7 @@ ConfigAccepts(o, c) ==
     /\ c.algs # "only_other"
     /\ HasDelta(o.type) /\ o.dv # "nodelta" => c.deltaSize >= 0
     /\ HasDelta(o.type) => c.patchEnabled
-    /\ HasSig(o.type) => c.sigAlg /\ c.keyAlg /\ c.nonce # "wrongsize"
+    /\ HasSig(o.type) => c.sigAlg /\ c.keyAlg /\ c.nonce \notin {"wrongsize", "zero"}
 
 \* next commitments differ from each other (create, recover) and from the commitment of the key
 \* that signs this very operation (update: nuv = "reuse_signing"; recover: wf = "reuse")
